@@ -186,6 +186,9 @@ func ZZC17NoIndex() {
 	case 2:
 		e = NewDocumentError(fs.NewFile("", []byte("abc")), Format(ErrGeneric, "m"))
 	}
+	if v.Choose(0, 1) == 1 {
+		e.SetIndex(0) // a positioned error on a possibly empty file
+	}
 	v.Observe("mode", mode)
 	panicked := true
 	func() {
